@@ -55,6 +55,14 @@ class TocRenderer(HtmlRenderer):
         items = block_token.tokenize(lines)
         return items[0]
 
+    def render_document(self, token):
+        """
+        Overrides super().render_document; the table of contents is that of
+        the document rendered last.
+        """
+        self._headings = []
+        return super().render_document(token)
+
     def render_heading(self, token):
         """
         Overrides super().render_heading; stores rendered heading first,
